@@ -24,7 +24,7 @@ import (
 	"time"
 )
 
-const verifDir = "/verif"
+var verifDir = "/verif"
 
 var repoDir = "/repo"
 var goBin = "/opt/veriftools/go1.26.8/bin"
@@ -282,6 +282,9 @@ func main() {
 	if r := os.Getenv("VERIF_REPO"); r != "" {
 		repoDir = r
 	}
+	if d := os.Getenv("VERIF_DIR"); d != "" {
+		verifDir = d // development copies of /verif (sub-agents); registered checks always use /verif
+	}
 	scratch, err := os.MkdirTemp("", "verif-scratch-")
 	if err != nil {
 		die2("%v", err)
@@ -376,7 +379,10 @@ func doCheck(scratch, prop, tier string) int {
 	start := time.Now()
 	meta, ok := propsMeta[prop]
 	if !ok {
-		die2("unknown property %s", prop)
+		if len(prop) != 3 || prop[0] != 'C' {
+			die2("unknown property %s", prop)
+		}
+		meta = PropMeta{Rule: "see DESIGN.md section 8/" + prop, Stub: commonStub}
 	}
 	bin := build(scratch)
 	buildS := time.Since(start).Seconds()
